@@ -166,7 +166,6 @@ theorem numberL_ids : ∀ (ks : List Node) (n : Nat),
     simp only [idsL_cons, sizeL_cons, h1, h3, h4]
     rw [h2] at h3 ⊢
     refine ⟨?_, by omega⟩
-    have := @List.range'_append n (number k n).1.size (sizeL (numberL ks (n + (number k n).1.size)).1) 1
     simp
 end
 
